@@ -202,6 +202,9 @@ fn next(&mut self) -> (r: Option<Result<Value, IoError>>)
         },
         
         r is None ==> old(self).pending_().len() == 0 && final(self).pending_().len() == 0,
+    // measure for a `next` that calls itself (today it does not): the pending input must have shrunk.  Without it
+    // a recursive edit is rejected by the front end (undecided) instead of being judged against the clauses above.
+    decreases old(self).pending_().len(),
 {
         if let Some(last) = self.last_val.take() {
             self.last_end = last.end;
